@@ -57,13 +57,13 @@ if a.returncode != 0:
 evp = os.path.join("/verif/evidence", f"{prop}.json")
 saved = open(evp).read() if os.path.exists(evp) else None
 try:
-    chk = run(["./check", prop, "--no-bounded"] + extra, cwd="/verif")
+    chk = run(["./check", prop] + extra, cwd="/verif")
 finally:
     run(["git", "-C", "/repo", "checkout", "--", "."])
     if saved is not None:
         open(evp, "w").write(saved)
 lines = [l for l in chk.stdout.splitlines() if l.startswith(("VIOLATION", "UNDECIDED", "KNOWN", prop, "ENGINE", "CRASH"))]
-meta["check"] = {"cmd": f"./check {prop} --no-bounded " + " ".join(extra), "exit": chk.returncode, "lines": lines[-25:]}
+meta["check"] = {"cmd": f"./check {prop} " + " ".join(extra), "exit": chk.returncode, "lines": lines[-25:]}
 meta["detected"] = chk.returncode == 1
 json.dump(meta, open(os.path.join(dst, "meta.json"), "w"), indent=1)
 print("check exit", chk.returncode)
